@@ -23,9 +23,9 @@ from harness.common import Model
 PID = "C14"
 TRANSLATORS = ["T-selectors-cheat"]
 
-# Genuine defects of halmos reproduced by this check (entries have the format of
-# known_findings.json; the coordinator decides between a fix and that file).
-KNOWN = common.known_for("C14")  # entries live in /verif/known_findings.json
+# Genuine defects of halmos reproduced by this check and not repaired: they live in
+# /verif/known_findings.json (none at present; C14-console-consumes-prank was repaired by f99ede4)
+KNOWN = common.known_for("C14")
 
 ASSUMPTIONS = [
     "Foundry semantics of prank/startPrank/stopPrank as written in Spec/FoundrySpec.v (my reading of the Foundry book and forge-std Vm.sol; there is no forge in the sandbox)",
@@ -35,8 +35,7 @@ ASSUMPTIONS = [
     "the extracted model and driver are faithful to the Coq definitions (extraction is trusted)",
 ]
 PARTIAL = ("delegatecall/callcode under a prank, pranks left active when a frame returns, vm.prank variants with a delegateCall flag "
-           "(unsupported by halmos), symbolic `who` of deal/store/etch and symbolic storage are outside the model; "
-           "C14_prank_trace is proved for sequences without console.log calls and refuted with them (defect C14-console-consumes-prank)")
+           "(unsupported by halmos), symbolic `who` of deal/store/etch and symbolic storage are outside the model")
 
 HEVM = 0x7109709ECFA91A80626FF3989D68F67F5B1DD12D
 SVM = 0xF3993A62377BCD56AE39D773740A5390411E8BC9
@@ -69,10 +68,8 @@ def spec_in_effect(hist):
     return None
 
 
-def spec_trace(ops, this=THIS, sender=SENDER0, origin=ORIGIN0, console_consumes=False):
-    """Foundry's meaning of an op sequence: list of [1, sender, origin] / [0].
-    console_consumes=True renders the known deviation of halmos (only used to classify a
-    failing input, never to accept one)."""
+def spec_trace(ops, this=THIS, sender=SENDER0, origin=ORIGIN0):
+    """Foundry's meaning of an op sequence: list of [1, sender, origin] / [0]."""
     frames = [dict(this=this, caller=sender, origin=origin, hist=[])]
     out = []
     for op in ops:
@@ -89,7 +86,7 @@ def spec_trace(ops, this=THIS, sender=SENDER0, origin=ORIGIN0, console_consumes=
         elif k == "stopPrank":
             f["hist"].append("stop")
         elif k == "cheat":
-            f["hist"].append("call" if (console_consumes and op[1] == "console") else "cheat")
+            f["hist"].append("cheat")     # vm.*, svm.*, console.log: never "the next call"
         elif k in ("call", "create"):
             eff = spec_in_effect(f["hist"])
             s = f["this"] if eff is None else eff[0]
@@ -672,7 +669,6 @@ def tie_prank_sevm(rep, m, tier, r):
     if m is not None:
         model = m.parallel_batch([("c14_prank", [THIS, SENDER0, ORIGIN0] + enc_ops(c)) for c in cases])
     nbad = 0
-    nknown = 0
     paths = 0
     for idx, ops in enumerate(cases):
         kinds = classify_prank(ops)
@@ -691,10 +687,8 @@ def tie_prank_sevm(rep, m, tier, r):
         for tr in traces:
             if not same_trace(tr, spec):
                 nbad += 1
-                known = same_trace(tr, spec_trace(ops, console_consumes=True))
-                sig = {"defect": "console_call_consumes_prank"} if known else {"defect": "prank_trace", "first_op": ops[0][0] if ops else ""}
-                nknown += int(known)
-                if (nbad - nknown <= 12 and not known) or (known and nknown <= 3):
+                sig = {"defect": "prank_trace", "first_op": ops[0][0] if ops else ""}
+                if nbad <= 12:
                     rep.fail("failing-input",
                              f"sender/origin observed by the entered frames differ from Foundry's meaning on op sequence {ops}: implementation {tr} spec {spec}",
                              case={"ops": ops, "implementation": tr, "spec": spec}, sig=sig)
@@ -1442,19 +1436,7 @@ def run(rep, tier):
     rep.coverage["tie_wall_s"] = timing
     rep.coverage["traces_validated_against_impl"] = rep.evaluations if m is not None else 0
     rep.coverage["known_defects"] = [k["id"] for k in KNOWN]
-    # KNOWN entries are matched exactly like known_findings.json entries (shared file not edited here)
-    orig = common.known_findings
-
-    def merged():
-        kf = orig()
-        have = {k.get("id") for k in kf.get("findings", [])}
-        fixed = {k.get("id") for k in kf.get("fixed", [])}
-        kf.setdefault("findings", [])
-        kf["findings"] = kf["findings"] + [k for k in KNOWN if k["id"] not in have and k["id"] not in fixed]
-        return kf
-
-    common.known_findings = merged
-    try:
+    if True:
         return rep.finish(
             checker_cmd="make -C coq Props/C14.vo (coq_makefile, coqc 8.16.1) after regenerating coq/Gen/GenCheatSelectors.v from /repo/src/halmos/{cheatcodes,console,sevm}.py",
             trusted_base=common.TRUSTED_BASE_COMMON,
@@ -1471,8 +1453,6 @@ def run(rep, tier):
                  "(L1c) every svm.create*/vm.random* selector through the real handle() for widths 0..257 and byte sizes {0,1,31,32,33,64}: status, counter, returned term evaluated "
                  "under 5-9 valuations incl. boundaries, range constraints, symbol width/type/name/counter rendering; 300 successive creations on one path have pairwise distinct names",
         )
-    finally:
-        common.known_findings = orig
 
 
 def replay(rep, body):
